@@ -90,8 +90,10 @@ func TCDF(nu, x float64) (float64, bool) {
 
 // CDFByIntegration integrates an arbitrary symmetric-about-0 density pdf the
 // same way (F(x) = ½ + sign(x)∫_0^{|x|} pdf, t = sinh u). It is used to
-// integrate the implementation's own PDF.
-func CDFByIntegration(pdf func(float64) float64, x float64) (float64, bool) {
+// integrate the implementation's own PDF, whose rounding noise (about
+// ν·1e-16 relative for a t density) limits the reachable accuracy: absTol
+// should stay above that noise or the recursion only ends at its budget.
+func CDFByIntegration(pdf func(float64) float64, x, absTol float64) (float64, bool) {
 	if x == 0 {
 		return 0.5, true
 	}
@@ -103,7 +105,7 @@ func CDFByIntegration(pdf func(float64) float64, x float64) (float64, bool) {
 		}
 		return p * math.Cosh(u)
 	}
-	v, ok := IntegratePieces(g, pieces(math.Asinh(ax), uBreaks), 1e-13)
+	v, ok := IntegratePieces(g, pieces(math.Asinh(ax), uBreaks), absTol)
 	if x < 0 {
 		return 0.5 - v, ok
 	}
